@@ -29,7 +29,7 @@ def run(ctx):
     ctx.assumptions += ["datastore Put is atomic (a crash never leaves a torn value)", "stage logs compared by number of stages only"]
     # design level: Chan with crashes: the store only ever holds a record that was planned (prefix of applied events)
     res = stages.model_chan(ctx, chancfg.chan_cfg(ops=chancfg.RESP_LIFE, init=(), max_ops=3 if ctx.quick() else 4, crashes=1, guard="any",
-                                                  invariants=["TypeOK", "C06_Prefix"], properties=["C02_Final", "C19_AppendOnly", "C07_Monotone"]), "chan-c06")
+                                                  invariants=["TypeOK", "C06_Prefix"], properties=["C02_Final", "C19_AppendOnly", "C07_Monotone", "C06_OnlyPersistWrites"]), "chan-c06")
     if res.violated:
         raise vlib.Inconclusive("Chan model violates %s\n%s" % (res.violated, res.out[-1500:]))
     vlib.tlc_must_pass(res, "Chan C06")
